@@ -131,6 +131,8 @@ static int probe_fn(void) { return (int)mock(); }
 static void setter_fn(int *out) { mock(out); }
 
 static void late_failure(void) { assert_that(0, is_equal_to(1)); }      /* a check that fails in an exit handler of the test's process */
+static int late_n;
+static void late_many(void) { for (int i = 0; i < late_n; i++) assert_that(1, is_equal_to(1)); assert_that(0, is_equal_to(1)); }      /* many checks, then a failing one, in an exit handler */
 
 static void do_acts(ActC *acts, int n) {
     for (int i = 0; i < n; i++) {
@@ -139,6 +141,7 @@ static void do_acts(ActC *acts, int n) {
         case 'F': assert_that(i, is_equal_to(-1)); break;
         case 'S': skip_test(); break;
         case 'A': atexit(late_failure); break;
+        case 'L': late_n = acts[i].arg; atexit(late_many); break;
         case 'H': {          /* a helper process of the test's own (a server it talks to ...): it lives as long as the test's process does */
             pid_t parent = getpid();
             if (fork() == 0) { for (int i = 0; i < 3000 && getppid() == parent; i++) usleep(20000); _exit(0); }
@@ -217,6 +220,7 @@ static int parse_acts(char *s, ActC **out) {
         else if (!strcmp(tok, "F")) a.kind = 'F';
         else if (!strcmp(tok, "S")) a.kind = 'S';
         else if (!strcmp(tok, "AX")) a.kind = 'A';
+        else if (tok[0] == 'A' && tok[1] == 'L') { a.kind = 'L'; a.arg = atoi(tok + 2); }
         else if (!strcmp(tok, "IA")) a.kind = 'I';
         else if (!strcmp(tok, "IP")) { a.kind = 'I'; a.arg = 1; }      /* code under test that ignores SIGPIPE, as network code does */
         else if (!strcmp(tok, "HP")) a.kind = 'H';
